@@ -450,6 +450,22 @@ def cases(tier, seed):
     rnd.shuffle(others)
     for p in params + others[: (len(others) if T else 10)]:
         add("lazyorder", font="fea:" + p, perms=3 if T else 2, own_output=1)
+    # sequences of fonts read lazily one after the other in ONE process: what the lazy readers return for a font
+    # must not depend on which fonts (other axis counts, class counts, value formats) were read before it
+    seqpool = sorted({r["path"] for r in fonts if r["variable"] and r["size"] <= 60000}
+                     | {r["path"] for r in corpus.fonts("ttx", lambda r: r["variable"] and r["complete"] and r["size"] <= 30000)})
+    layoutpool = ["fea:" + p for p in feas if any(w in p for w in ("GPOS_2", "PairPos", "spec9", "bug633", "GPOS_4", "GPOS_5", "GPOS_6", "markClass"))]
+    rnd2 = random.Random("c16-lazyseq/%s" % seed)
+    # one font per distinct axis count among those carrying an ItemVariationStore (region records sized by axis count)
+    vs = [r for r in corpus.fonts(None, lambda r: r["variable"] and r["complete"] and r["size"] <= 60000
+                                  and {"HVAR", "MVAR", "VVAR", "GDEF"} & set(r["tables"]))]
+    byaxes = {}
+    for r in sorted(vs, key=lambda r: (-r["size"], r["path"])):
+        byaxes.setdefault(len(r["axes"]), []).append(r["path"])
+    for g in range(6 if T else 2):
+        a = [lst[g % len(lst)] for n, lst in sorted(byaxes.items(), reverse=True)][:5] if g % 2 == 0 else rnd2.sample(seqpool, min(4, len(seqpool)))
+        b = rnd2.sample(layoutpool, min(3, len(layoutpool)))
+        add("lazyseq", group=g, fonts=a + b + ["genfea:%d" % (seed * 10 + g)])
     for k in range(8 if T else 4):
         add("lazyorder", font="<built>", member=k, perms=3, own_output=1)
         add("lazyorder", font="<built>", member=k, perms=3, edits=1)
@@ -464,13 +480,15 @@ def cases(tier, seed):
     rnd.shuffle(pool)
     aots2 = [r for r in allf if "/aots/" in r["path"]]
     rnd.shuffle(aots2)
-    chosen = cff2ttx[: (len(cff2ttx) if T else 3)] + pool[: (len(pool) if T else 34)] + aots2[: (60 if T else 5)]
+    colr = [r for r in pool if "COLR" in r["tables"]]
+    chosen = cff2ttx[: (len(cff2ttx) if T else 3)] + colr[: (len(colr) if T else 4)] + [r for r in pool if r not in colr][: (len(pool) if T else 32)] \
+        + aots2[: (60 if T else 5)]
     for r in chosen:
         modes = ["ttx"] if r["kind"] == "ttx" else ["decoded", "raw"]
         if r["kind"] == "ttx" and (T or rnd.random() < 0.3):
             modes.append("decoded")
         for m in modes:
-            add("history", font=r["path"], mode=m, n=(6 if T else 3))
+            add("history", font=r["path"], mode=m, n=(8 if T else 4))
     add("history", font="<built>", mode="built", n=8 if T else 4)
 
     # ---- histories on collections (TTCollection.save shares tables between members)
@@ -810,6 +828,28 @@ def _lazy_input(case):
             return corpus.save_bytes(font)
         finally:
             os.environ["SOURCE_DATE_EPOCH"] = keep if keep is not None else env.EPOCH
+    if rel.startswith("genfea:"):
+        import random as _r
+        from vmon import c16_pipe
+        from vmon.gen import c16_fea
+        from fontTools.feaLib.builder import addOpenTypeFeaturesFromString
+        from fontTools.fontBuilder import FontBuilder
+        from fontTools.ttLib.tables._g_l_y_f import Glyph
+
+        os.environ.setdefault("VMON_REPO", env.REPO)
+        c16_pipe._fea_font()
+        order = list(c16_pipe.FEA_GLYPHS)
+        fb = FontBuilder(1000, isTTF=True)
+        fb.setupGlyphOrder(order)
+        fb.setupCharacterMap({ord(g): g for g in order if len(g) == 1})
+        fb.setupGlyf({g: Glyph() for g in order})
+        fb.setupHorizontalMetrics({g: (500, 0) for g in order})
+        fb.setupHorizontalHeader(ascent=800, descent=-200)
+        fb.setupNameTable({"familyName": "Gen", "styleName": "Regular"})
+        fb.setupOS2()
+        fb.setupPost()
+        addOpenTypeFeaturesFromString(fb.font, c16_fea.generate(_r.Random("c16-fea/%s" % rel[7:])))
+        return corpus.save_bytes(fb.font)
     if rel.startswith("fea:"):
         from vmon import c16_pipe
 
@@ -819,6 +859,53 @@ def _lazy_input(case):
         with open(corpus.abspath(rel), "rb") as f:
             return f.read()
     return corpus.font_bytes(rel, member)
+
+
+def run_lazyseq(case, ctx, rnd):
+    """Several fonts read with lazy=True one after the other (every rotation of the list), each dumped and
+    saved; the bytes must equal those obtained with lazy=None, whatever was read before in the process."""
+    inputs = []
+    for rel in case["fonts"]:
+        try:
+            data = corpus.font_bytes(rel) if not rel.startswith(("fea:", "genfea:")) else _lazy_input({"font": rel})
+        except (CaseTimeout, MemoryError):
+            raise
+        except Exception as e:
+            ctx.skip("input font cannot be built: %s" % type(e).__name__)
+            continue
+        inputs.append((rel, data))
+
+    def process(data, lazy):
+        try:
+            f = corpus.open_bytes(data, lazy=lazy)
+            f.saveXML(io.StringIO())
+            return corpus.save_bytes(f), None
+        except (CaseTimeout, MemoryError):
+            raise
+        except Exception as e:
+            return None, type(e).__name__
+
+    ref = {rel: process(data, None) for rel, data in inputs}
+    n = 0
+    for rot in range(len(inputs)):
+        seq = inputs[rot:] + inputs[:rot]
+        for pos, (rel, data) in enumerate(seq):
+            out, err = process(data, True)
+            ctx.judged()
+            n += 1
+            rout, rerr = ref[rel]
+            if err != rerr:
+                _once(ctx, {"kind": "lazy-order", "what": "outcome-differs", "outcomes": sorted({str(err), str(rerr)}), "sequence": True},
+                      "%s read lazily after %s: %s, but %s with lazy=None" % (rel, [r for r, d in seq[:pos]][-2:], err or "ok", rerr or "ok"),
+                      {"font": rel, "read_before": [r for r, d in seq[:pos]]})
+            elif out != rout:
+                tags = diff_tables(rout, out)
+                _once(ctx, {"kind": "lazy-order", "table": tags[0], "lazy_differs": True, "sequence": True},
+                      "%s read with lazy=True after other fonts gives different bytes than with lazy=None: %s" % (rel, tags),
+                      {"font": rel, "read_before": [r for r, d in seq[:pos]], "xml_diff": xml_diff(rout, out, tags[0])})
+            elif err is None:
+                ctx.nontrivial("ls:%s:%d:%d" % (rel[-20:], rot, pos))
+    ctx.sample = {"kind": "lazyseq", "fonts": [r for r, d in inputs], "reads": n}
 
 
 def run_lazyorder(case, ctx, rnd):
@@ -955,7 +1042,7 @@ def _built_font(k):
         feature cv01 { cvParameters { FeatUILabelNameID { name "cv one"; }; Character 0x41; }; sub A by A.alt; } cv01;
         feature ss01 { featureNames { name "Stylistic one"; }; sub B by C; } ss01;
         feature liga { sub f i by f_i; } liga;
-        feature salt { sub A by A.alt; } salt;
+        feature salt { sub A by A.alt; sub a from [b A.alt B]; } salt;
         feature kern { lookup k { pos A B -40; pos A <0 0 -30 0> b <10 0 0 0>; subtable; pos @UC a -15; pos B [a b] <0 0 -10 0>; } k; } kern;
         feature mark { markClass acutecomb <anchor 0 500> @TOP; pos base [A a] <anchor 250 700> mark @TOP; } mark;
         table GDEF { GlyphClassDef [A B C a b f i A.alt], [f_i], [acutecomb], ; } GDEF;
@@ -983,7 +1070,7 @@ def _fresh(case, mode, k=0):
 
 EDITS = ["head.lowestRecPPEM", "OS/2.usWeightClass", "hhea.lineGap", "post.underlineThickness", "name.add", "hmtx.advance",
          "cmap.add", "glyf.move", "CFF.underline", "maxp.noop", "flavor", "GSUB.flag", "GPOS.flag", "fvar.flags", "gasp.add",
-         "hmtx.all", "glyf.far"]
+         "hmtx.all", "glyf.far", "COLR.clip", "GSUB.subst", "GPOS.value", "GDEF.class"]
 
 
 def _edit(font, name, k, table=None):
@@ -1023,6 +1110,69 @@ def _edit(font, name, k, table=None):
                     g.coordinates[0] = (g.coordinates[0][0] + 3000 + k, g.coordinates[0][1])
                     return True
             return False
+        elif name == "COLR.clip":
+            # same-length in-place edit of the clip boxes: one glyph gets another glyph's box
+            cl = getattr(t.table, "ClipList", None) if hasattr(t, "table") else None
+            clips = getattr(cl, "clips", None)
+            if not clips or len(clips) < 2:
+                return False
+            names = sorted(clips)
+            a, b = names[k % len(names)], names[(k + 1) % len(names)]
+            if clips[a] is clips[b] or vars(clips[a]) == vars(clips[b]):
+                import copy as _copy
+
+                box = _copy.copy(clips[b])
+                for attr in ("xMin", "yMin"):
+                    if hasattr(box, attr):
+                        setattr(box, attr, getattr(box, attr) - 7 - k)
+                clips[a] = box
+            else:
+                clips[a] = clips[b]
+        elif name == "GSUB.subst":
+            # in-place edit of the first single/alternate/ligature substitution mapping
+            for lk in (t.table.LookupList.Lookup if t.table.LookupList else []):
+                for st in lk.SubTable:
+                    st = getattr(st, "ExtSubTable", st)
+                    if lk.LookupType in (1, 7) and getattr(st, "mapping", None):
+                        g = sorted(st.mapping)[0]
+                        st.mapping[g] = sorted(st.mapping.values())[-1 - (k % len(st.mapping))]
+                        return True
+                    if getattr(st, "alternates", None):
+                        g = sorted(st.alternates)[0]
+                        st.alternates[g] = list(reversed(st.alternates[g])) + st.alternates[g][: k % 2]
+                        return True
+                    if getattr(st, "ligatures", None):
+                        g = sorted(st.ligatures)[0]
+                        if st.ligatures[g]:
+                            st.ligatures[g][0].LigGlyph = font.getGlyphOrder()[min(1 + k, len(font.getGlyphOrder()) - 1)]
+                            return True
+            return False
+        elif name == "GPOS.value":
+            for lk in (t.table.LookupList.Lookup if t.table.LookupList else []):
+                for st in lk.SubTable:
+                    st = getattr(st, "ExtSubTable", st)
+                    if lk.LookupType in (1, 9) and getattr(st, "Value", None) is not None and hasattr(st.Value, "XAdvance"):
+                        st.Value.XAdvance += 3 + k
+                        return True
+                    if getattr(st, "Format", None) == 1 and getattr(st, "PairSet", None):
+                        for ps in st.PairSet:
+                            for rec in ps.PairValueRecord:
+                                if rec.Value1 is not None and hasattr(rec.Value1, "XAdvance"):
+                                    rec.Value1.XAdvance -= 3 + k
+                                    return True
+                    if getattr(st, "Format", None) == 2 and getattr(st, "Class1Record", None):
+                        for c1 in st.Class1Record:
+                            for c2 in c1.Class2Record:
+                                if c2.Value1 is not None and hasattr(c2.Value1, "XAdvance"):
+                                    c2.Value1.XAdvance -= 3 + k
+                                    return True
+            return False
+        elif name == "GDEF.class":
+            cd = getattr(t.table, "GlyphClassDef", None)
+            if cd is None or not getattr(cd, "classDefs", None):
+                return False
+            g = sorted(cd.classDefs)[k % len(cd.classDefs)]
+            cd.classDefs[g] = 1 + (cd.classDefs[g] % 3)
         elif name == "cmap.add":
             order = font.getGlyphOrder()
             done = False
@@ -1118,7 +1268,7 @@ def _observe(font, op, arg):
         raise ValueError(op)
 
 
-def _gen_history(rnd, font, mode):
+def _gen_history(rnd, font, mode, turn=None):
     tags = [t for t in font.keys() if t != "GlyphOrder"]
     order = None
     if mode != "raw":
@@ -1128,6 +1278,8 @@ def _gen_history(rnd, font, mode):
             order = None
     n = rnd.randrange(3, 11)
     ops = []
+    tagof = lambda e: {"OS/2": "OS/2", "CFF": "CFF "}.get(e.split(".")[0], e.split(".")[0])
+    applicable = [e for e in EDITS if e == "flavor" or tagof(e) in tags]
     if mode == "raw":
         menu = ["obs:save"] * 3 + ["obs:getTableData"] * 3 + ["access"] * 2
     else:
@@ -1138,7 +1290,7 @@ def _gen_history(rnd, font, mode):
         if m == "access":
             ops.append(["access", rnd.choice(tags), None])
         elif m == "edit":
-            ops.append(["edit", rnd.choice(EDITS), rnd.randrange(4)])
+            ops.append(["edit", rnd.choice(applicable or EDITS), rnd.randrange(4)])
         elif m == "epoch":
             ops.append(["edit", "epoch", rnd.randrange(6)])
         elif m == "obs:failsave":
@@ -1156,6 +1308,21 @@ def _gen_history(rnd, font, mode):
                 ops.append(["obs", "draw", rnd.sample(order, min(3, len(order)))])
     if not any(o[0] == "obs" for o in ops):
         ops.insert(rnd.randrange(len(ops) + 1), ["obs", "save", True])
+    if mode != "raw" and applicable and turn is not None:
+        # the shape "look at the font, then change it in place": every table-specific edit gets its turn right
+        # after an observation (caches filled by a dump or a compile must not outlive the edit)
+        structural = [e for e in applicable if e.split(".")[0] in ("COLR", "GSUB", "GPOS", "GDEF", "cmap", "name", "glyf", "hmtx", "CFF")]
+        structural.sort(key=lambda e: (e.split(".")[0] in ("cmap", "name", "glyf", "hmtx"), e))   # rarer tables first
+        for j in range(min(3, len(structural))):
+            e = structural[(turn * 3 + j) % len(structural)]
+            which = (turn + j) % 3
+            if which == 0:
+                ops.append(["obs", "saveXML", None])
+            elif which == 1:
+                ops.append(["obs", "compile", tagof(e)])
+            else:
+                ops.append(["obs", "save", True])
+            ops.append(["edit", e, rnd.randrange(4)])
     return ops
 
 
@@ -1170,6 +1337,12 @@ def _play(case, mode, k, ops, with_obs, ctx=None):
 
 def _play_inner(case, mode, k, ops, with_obs):
     font = _fresh(case, mode, k)
+    if (k // 2) % 2:
+        # the pure-Python serializer instead of the HarfBuzz repacker (a documented configuration switch)
+        try:
+            font.cfg["fontTools.ttLib.tables.otBase:USE_HARFBUZZ_REPACKER"] = False
+        except Exception:
+            pass
     if mode != "raw" and k % 2:
         font.recalcTimestamp = True       # let head.modified follow the (pinned, history-controlled) clock
     applied = []
@@ -1229,7 +1402,7 @@ def run_history(case, ctx, rnd):
         if not [t for t in probe.keys() if t != "GlyphOrder"]:
             ctx.skip("font without tables")
             return
-        ops = _gen_history(rnd, probe, mode)
+        ops = _gen_history(rnd, probe, mode, turn=k + case["seed"])
         del probe
         # the purity monitor watches the run that contains the observations
         _cur.update(purity_on=(mode != "raw"), depth=0)
